@@ -372,3 +372,21 @@ func EqualRR(a, b *wire.RR) string {
 	}
 	return ""
 }
+
+// NameStrings returns the presentation strings held in the name-valued fields of rr (located through
+// the reference table s).
+func NameStrings(rr dns.RR, s *wire.Spec) []string {
+	var out []string
+	rv := reflect.ValueOf(rr).Elem()
+	for _, f := range s.Fields {
+		switch f.K {
+		case wire.Name, wire.CName:
+			out = append(out, field(rv, f.Go).String())
+		case wire.Names:
+			out = append(out, field(rv, f.Go).Interface().([]string)...)
+		case wire.Gateway:
+			out = append(out, field(rv, "GatewayHost").String())
+		}
+	}
+	return out
+}
